@@ -139,6 +139,14 @@ class SplitBench(Bench):
     self.net = simnet.Net()
     self._ctx = simnet.installed(self.net)
     self._ctx.__enter__()
+    self.saved = None
+    self.prefix_concrete = []
+    self.world = None
+    self._build()
+
+  def _build(self):
+    from simkit import deploy  # pylint: disable=g-import-not-at-top
+    cfg = self.cfg
     factory = P.base_factory(cfg) if cfg.get('algorithm') == 'SEQUENCE' else None
     with conc.shims_installed():
       self.dep = deploy.Deployment('split', cfg, self.net, policy_factory=factory, backend='ram')
@@ -148,13 +156,16 @@ class SplitBench(Bench):
     self.real_ds = sv.datastore
     sv.datastore = conc.DSProxy(self.real_ds)
     sv.default_pythia_service = conc.PythiaProxy(sv.default_pythia_service)
-    self.saved = None
-    self.prefix_concrete = []
-    self.world = None
+
+  def _rebuild(self):
+    """Slow path (the datastore's internals are not the ones save() knows): new deployment, prefix re-executed."""
+    self.sv.datastore = self.real_ds
+    self.dep.destroy()
+    self._build()
+    for c in self.prefix_concrete:
+      O.execute(self.sv, c, self.cfg)
 
   def restore(self):
-    if self.saved is None:
-      raise RuntimeError('split bench: datastore internals changed, no snapshot available')
     Bench.restore(self)
     for srv in self.net.all_servers:
       srv.reset_concurrency()
